@@ -20,7 +20,7 @@ DTF = [('f64', 'int'), ('f64', 'gauss'), ('c128', 'int'), ('f64', 'zero')]
 
 
 def BOUNDS(tier):
-    return {'max_order_tensor': 4 if tier == 'quick' else 5, 'max_order_operator': 3, 'axis_subsets': 'all',
+    return {'max_order_tensor': 4 if tier == 'quick' else 5, 'max_order_operator': 3, 'axis_subsets': 'all (the empty subset included)',
             'autograd_states': ['off', 'leaf', 'nonleaf'], 'dtypes': DTF}
 
 
@@ -57,6 +57,7 @@ def cases(tier, seed):
                                 continue
                             yield dict(base, op='norm', sq=sq, ag=ag)
                     yield dict(base, op='sum_all')
+                    yield dict(base, op='sum', ax=[], form='list')       # the empty subset of modes: the tensor itself
                     for ax in space.subsets(d, nonempty=True):
                         yield dict(base, op='sum', ax=ax, form='list')
                         if len(ax) == 1:
@@ -78,6 +79,7 @@ def cases(tier, seed):
                         for ag in ('off', 'leaf'):
                             yield dict(base, op='norm', sq=sq, ag=ag)
                     yield dict(base, op='sum_all')
+                    yield dict(base, op='sum', ax=[], form='list')
                     for ax in space.subsets(d, nonempty=True):
                         yield dict(base, op='sum', ax=ax, form='list')
                     for Rx in space.ranks_dev(d, offset=1, maxdev=0):
@@ -147,13 +149,13 @@ def run_case(c):
     if op == 'sum':
         ax = c['ax']
         key = 'sum|%s|%s|%s' % (ax, c['form'], space.skey(st))
-        site = 'sum_axes.' + kd
+        site = 'sum_axes.' + kd + ('.empty_subset' if not ax else '')
         arg = ax[0] if c['form'] == 'int' else list(ax)
         res, e = call(x.sum, arg)
         if e is not None:
             return Outcome(key, nt, 'raises', violations=[V(site + '.raises_' + exc_name(e), repr(e))])
         dims = list(ax) if c['k'] == 't' else list(ax) + [a + d for a in ax]
-        want = dx.sum(dim=dims)
+        want = dx.sum(dim=dims) if dims else dx          # (torch reads an empty dim list as 'all dims'; the property means the empty subset)
         exact = fam in ('int', 'zero')
         bound = bx * numel
         if len(ax) == d:
